@@ -10,7 +10,7 @@ def run(ctx):
     out = []
     for fs in ctx.featuresets():
         c = ctx.mir(fs)["ts_rs"]
-        res = [E.single_writer_rule(c, "C11", ctx.syn), E.walk_rule(c, "C11"), E.path_agreement_rule(c, "C11"), E.type_arg_discipline_rule(c, "C11"), E.entry_reaches_writer_rule(c, "C11")]
+        res = [E.single_writer_rule(c, "C11", ctx.syn), E.walk_rule(c, "C11"), E.path_agreement_rule(c, "C11"), E.type_arg_discipline_rule(c, "C11"), E.entry_reaches_writer_rule(c, "C11"), E.visitor_predicates_rule(c, "C11"), E.mkdir_origin_rule(c, "C11")]
         for r in res:
             if fs != "default":
                 r.rule += "@" + fs
